@@ -215,6 +215,11 @@ func c04(args []string) error {
 		return err
 	}
 	defer ev.Close()
+	mv, err := newEvents(outdir + "/c04.move.ndjson")
+	if err != nil {
+		return err
+	}
+	defer mv.Close()
 	rng := rand.New(rand.NewSource(int64(seed)))
 	var st idxStats
 	sizes := []int{0, 1, 2, 3, 4, 31, 32, 33, 34, 35, 63, 64, 65, 66, 100, 255, 256, 257, 258, 259, 300, 513, 1000}
@@ -385,6 +390,52 @@ func c04(args []string) error {
 					ser = line
 				}
 				st.decode(ser.Index())
+				// Move by offsets whose sums are inexact: the moved indexed series against an index-free series of the same moved points
+				small := true // moderate magnitudes only (the offsets would vanish, and midpoints overflow, in the huge layouts)
+				for _, p := range fpts {
+					if !(math.Abs(p.X) < 1e12 && math.Abs(p.Y) < 1e12) {
+						small = false
+						break
+					}
+				}
+				if n >= 2 && n <= 5000 && opts.Kind != geometry.None && mv != nil && small {
+					for oi, off := range [][2]float64{{-0.1, 0.3}, {1e-7, -1e-7}, {123.456, -0.001}, {0.1, 0.2}} {
+						if (oi+ci+len(fpts))%2 == 0 {
+							continue
+						}
+						var moved geometry.Series
+						if closed {
+							moved = poly.Move(off[0], off[1]).Exterior
+						} else {
+							moved = line.Move(off[0], off[1])
+						}
+						mpts := make([]geometry.Point, len(fpts))
+						for i, p := range fpts {
+							mpts[i] = geometry.Point{X: p.X + off[0], Y: p.Y + off[1]}
+						}
+						var plain geometry.Series
+						if closed {
+							plain = geometry.NewPoly(mpts, nil, &indexConfigs[0]).Exterior
+						} else {
+							plain = geometry.NewLine(mpts, &indexConfigs[0])
+						}
+						mb := plain.Rect()
+						cx, cy := (mb.Min.X+mb.Max.X)/2, (mb.Min.Y+mb.Max.Y)/2
+						queries := []geometry.Rect{mb, {Min: mb.Min, Max: geometry.Point{X: cx, Y: cy}}, {Min: geometry.Point{X: cx, Y: cy}, Max: mb.Max},
+							{Min: geometry.Point{X: mb.Min.X, Y: mb.Max.Y}, Max: mb.Max}, {Min: mpts[0], Max: mpts[0]}, {Min: mpts[len(mpts)/2], Max: mpts[len(mpts)/2]},
+							{Min: geometry.Point{X: mb.Max.X, Y: mb.Min.Y}, Max: geometry.Point{X: mb.Max.X, Y: mb.Max.Y}}}
+						for _, q := range queries {
+							collect := func(sr geometry.Series) []int {
+								h := []int{}
+								sr.Search(q, func(_ geometry.Segment, idx int) bool { h = append(h, idx); return true })
+								sort.Ints(h)
+								return h
+							}
+							mv.Emit(obj{"op": "movecmp", "layout": name, "points": n, "kind": opts.Kind.String(), "minpts": opts.MinPoints, "dx": off[0], "dy": off[1],
+								"q": []float64{q.Min.X, q.Min.Y, q.Max.X, q.Max.Y}, "indexed": collect(moved), "plain": collect(plain)})
+						}
+					}
+				}
 				for qi, qq := range qs {
 					if n > 3000 && qi%len(cfgs) != ci%len(cfgs) && qi > 3 {
 						continue
